@@ -25,6 +25,8 @@ def run(ctx):
               ("4", "CVSS:4.0/AV:N/AC:L/AT:N/PR:N/UI:N/VC:N/VI:N/VA:N/SC:N/SI:N/SA:N"),
               ("4", "CVSS:4.0/AV:N/AC:L/AT:N/PR:N/UI:N/VC:H/VI:H/VA:H/SC:H/SI:H/SA:H")]
     items += [("2", s) for s in core.v2_low_family()[:: (1 if ctx.tier == "thorough" else 3)]]
+    for v in "234":
+        items += [(v, s) for s in core.singletons(v, rng, ctx.n(12, 200))]
     # "every ACCEPTED vector": also whatever near-valid strings the constructors accept (none, on a tree whose
     # acceptance is exactly the grammar except through field order / spelling)
     extra = []
